@@ -1,4 +1,5 @@
 import re
+from operator import itemgetter
 from typing import Iterable, List, Match, NamedTuple, Optional, Tuple, Union
 
 from .errors import MarkupError
@@ -111,8 +112,11 @@ def render(markup: str, style: Union[str, Style] = "", emoji: bool = True) -> Te
     style_stack: List[Tuple[int, Tag]] = []
     pop = style_stack.pop
 
-    spans: List[Span] = []
-    append_span = spans.append
+    # (position of the opening tag in the stack history, span); spans must be applied in the order their tags
+    # were opened so that a tag opened later takes precedence
+    spans: List[Tuple[int, Span]] = []
+    open_order: List[int] = []
+    open_count = 0
 
     _Span = Span
     _Tag = Tag
@@ -121,7 +125,10 @@ def render(markup: str, style: Union[str, Style] = "", emoji: bool = True) -> Te
         """Pop tag matching given style name."""
         for index, (_, tag) in enumerate(reversed(style_stack), 1):
             if tag.name == style_name:
-                return pop(-index)
+                opened = open_order.pop(-index)
+                start, open_tag = pop(-index)
+                spans.append((opened, _Span(start, len(text), str(open_tag))))
+                return start, open_tag
         raise KeyError(style_name)
 
     for position, plain_text, tag in _parse(markup):
@@ -145,18 +152,21 @@ def render(markup: str, style: Union[str, Style] = "", emoji: bool = True) -> Te
                         raise MarkupError(
                             f"closing tag '[/]' at position {position} has nothing to close"
                         ) from None
-
-                append_span(_Span(start, len(text), str(open_tag)))
+                    spans.append(
+                        (open_order.pop(), _Span(start, len(text), str(open_tag)))
+                    )
             else:  # Opening tag
                 normalized_tag = _Tag(normalize(tag.name), tag.parameters)
                 style_stack.append((len(text), normalized_tag))
+                open_order.append(open_count)
+                open_count += 1
 
     text_length = len(text)
     while style_stack:
         start, tag = style_stack.pop()
-        append_span(_Span(start, text_length, str(tag)))
+        spans.append((open_order.pop(), _Span(start, text_length, str(tag))))
 
-    text.spans = sorted(spans)
+    text.spans = [span for _, span in sorted(spans, key=itemgetter(0))]
     return text
 
 
